@@ -242,7 +242,10 @@ func aggrLevel(mode string, metas []chunks.Meta, acs []*downsample.AggrChunk, r1
 		return nil, "nc-mismatch"
 	}
 	if nc2 > len(acs) && len(acs) > 0 && childOp != "" && os.Getenv("VERIF_DS_CHILD") == "" {
-		return nil, "child:" + runChild(childOp)
+		// first in a child with a deadline; only when the child returned is the call repeated here
+		if ans := runChild(childOp); ans == "hang" || strings.HasPrefix(ans, "err:child") {
+			return nil, "child:" + ans
+		}
 	}
 	var (
 		res []chunks.Meta
@@ -262,7 +265,9 @@ func aggrLevel(mode string, metas []chunks.Meta, acs []*downsample.AggrChunk, r1
 	return res, ""
 }
 
-var childDeadline = 800 * time.Millisecond
+// generous: the machine is shared and a child needs 0.1-2 s to start; a call that does not return
+// costs this much
+var childDeadline = 12 * time.Second
 
 // runChild re-executes this binary on one op line with a deadline; a child that does not answer
 // in time is killed and the answer is `hang`.
